@@ -23,9 +23,12 @@ func reset() {
 }
 
 type arg struct {
-	Doc  mc.Bin `json:"doc"`
-	Rule int    `json:"rule"`
-	Max  int    `json:"max_object_keys"`
+	Doc     mc.Bin  `json:"doc"`
+	Members []int   `json:"members,omitempty"` // object document given as indexes into the member alphabet (streamed phases); Doc is then derived
+	Rule    int     `json:"rule"`
+	Max     int     `json:"max_object_keys"`
+	Prev    *mc.Bin `json:"previous_call,omitempty"` // history of depth 2: parsed first (same rule), on the buffer that is then reused
+	Via     int     `json:"previous_via,omitempty"`  // the single previous call: 0 DefaultParser[[]byte] on the shared buffer, 1 DefaultParser[string], 2 UnmarshalJSON on the shared buffer
 }
 
 func setup(a arg) {
@@ -53,9 +56,15 @@ type member struct {
 	s    string // decoded string content for vString
 }
 
-func mv(key string, val string, vk valKind, n uint64) member { return member{key: `"` + key + `"`, kcls: 0, val: val, vk: vk, n: n} }
-func mu(key string, val string, vk valKind, s string) member { return member{key: `"` + key + `"`, kcls: 1, val: val, vk: vk, s: s} }
-func mx(key string, val string) member                     { return member{key: `"` + key + `"`, kcls: 2, val: val, vk: vOther} }
+func mv(key string, val string, vk valKind, n uint64) member {
+	return member{key: `"` + key + `"`, kcls: 0, val: val, vk: vk, n: n}
+}
+func mu(key string, val string, vk valKind, s string) member {
+	return member{key: `"` + key + `"`, kcls: 1, val: val, vk: vk, s: s}
+}
+func mx(key string, val string) member {
+	return member{key: `"` + key + `"`, kcls: 2, val: val, vk: vOther}
+}
 
 var alphabet = []member{
 	mv("value", "1", vGoodNum, 1), mu("unit", `"B"`, vString, "B"), mx("x", "1"),
@@ -89,12 +98,12 @@ func objDoc(ms []member, ws int) string {
 
 // ---------------------------------------------------------------- expectation
 type expectation struct {
-	cls      int // 0 accept, 1 reject, 2 don't care
-	value    uint64
-	valueOK  bool            // for don't care: accepted results must equal value
-	allowed  map[error]bool  // for reject: acceptable sentinels; nil or anyErr => any error
-	anyErr   bool
-	why      string
+	cls     int // 0 accept, 1 reject, 2 don't care
+	value   uint64
+	valueOK bool           // for don't care: accepted results must equal value
+	allowed map[error]bool // for reject: acceptable sentinels; nil or anyErr => any error
+	anyErr  bool
+	why     string
 }
 
 func rejectAny(why string) expectation { return expectation{cls: 1, anyErr: true, why: why} }
@@ -253,14 +262,21 @@ type docAST struct {
 
 var registry = map[string]docAST{} // doc text -> AST (filled by the generators, also used by replay)
 
-func expectDoc(doc string, rule, max int) expectation {
+func expectDoc(doc string, rule, max int) expectation { return expectDocAST(doc, nil, rule, max) }
+
+func expectDocAST(doc string, given *docAST, rule, max int) expectation {
 	if len(doc) > 128 {
 		return rejectAny("longer than MaxInputLength")
 	}
 	if rule&6 == 0 {
 		return expectTextMode(doc, rule)
 	}
-	ast, ok := lookup(doc)
+	ast, ok := docAST{}, false
+	if given != nil {
+		ast, ok = *given, true
+	} else {
+		ast, ok = lookup(doc)
+	}
 	if !ok {
 		return rejectAny("not exactly one well-formed JSON value")
 	}
@@ -379,10 +395,40 @@ func sameAST(a, b docAST) bool {
 
 func probe(a arg) (string, string) {
 	doc := string(a.Doc)
-	ex := expectDoc(doc, a.Rule, a.Max)
-	g1, e1 := size.DefaultParser(doc, size.Rule(a.Rule))
+	var given *docAST
+	if len(a.Members) > 0 {
+		ms := make([]member, len(a.Members))
+		for i, k := range a.Members {
+			ms[i] = alphabet[k]
+		}
+		doc = objDoc(ms, 0)
+		given = &docAST{kind: 0, members: ms}
+	}
+	ex := expectDocAST(doc, given, a.Rule, a.Max)
 	cp := []byte(doc)
-	g2, e2 := size.DefaultParser(cp, size.Rule(a.Rule))
+	if a.Prev != nil {
+		buf := make([]byte, 0, 256)
+		buf = append(buf, *a.Prev...)
+		switch a.Via {
+		case 0:
+			_, _ = size.DefaultParser(buf, size.Rule(a.Rule))
+		case 1:
+			_, _ = size.DefaultParser(string(*a.Prev), size.Rule(a.Rule))
+		default:
+			var u size.Size
+			_ = u.UnmarshalJSON(buf)
+		}
+		cp = append(buf[:0], doc...) // the same backing array, overwritten in place
+	}
+	var g1, g2 size.Size
+	var e1, e2 error
+	if a.Prev != nil { // history: the reused buffer is parsed first, directly after the previous call
+		g2, e2 = size.DefaultParser(cp, size.Rule(a.Rule))
+		g1, e1 = size.DefaultParser(doc, size.Rule(a.Rule))
+	} else {
+		g1, e1 = size.DefaultParser(doc, size.Rule(a.Rule))
+		g2, e2 = size.DefaultParser(cp, size.Rule(a.Rule))
+	}
 	type res struct {
 		name string
 		g    size.Size
@@ -475,10 +521,7 @@ func main() {
 			n   int
 		}
 		var docs []string
-		full := 3
-		if !r.Quick() {
-			full = 4
-		}
+		full := 3 // materialised set: all sequences up to length 3 (both tiers); length 4 over the full alphabet is streamed in the thorough tier
 		var gen func(cur []int, alpha []int, depth int)
 		emit := func(cur []int) {
 			ms := make([]member, len(cur))
@@ -505,7 +548,7 @@ func main() {
 			all[i] = i
 		}
 		gen(nil, all, full)
-		if r.Quick() {
+		{
 			// length 4 over the reduced alphabet (length <=3 of it is already present; duplicates are harmless, the registry dedups)
 			var gen4 func(cur []int)
 			gen4 = func(cur []int) {
@@ -652,6 +695,57 @@ func main() {
 				})
 			}
 		}
+		if !r.Quick() {
+			idx := make([]byte, len(alphabet))
+			for i := range idx {
+				idx[i] = byte(i)
+			}
+			for _, max := range maxes {
+				for rule := 4; rule < 16; rule++ {
+					if rule&4 == 0 {
+						continue
+					}
+					max, rule := max, rule
+					r.Phase(fmt.Sprintf("streamed: every member sequence of length 4 over the full %d-member alphabet, rule=%d MaxObjectKeys=%d", len(alphabet), rule, max), "complete (documents longer than MaxInputLength skipped)", func() {
+						setup(arg{Rule: rule, Max: max})
+						r.Strings(idx, 4, 4, func(w *mc.W, ix []byte) {
+							n := 0
+							ms := make([]int, 4)
+							for i, k := range ix {
+								ms[i] = int(k)
+								n += len(alphabet[k].key) + len(alphabet[k].val) + 2
+							}
+							if n+1 > 128 {
+								return
+							}
+							w.Point()
+							w.NonTrivial()
+							p.Do(w, arg{Members: ms, Rule: rule, Max: max})
+						})
+						reset()
+					})
+				}
+			}
+		}
+		r.Phase("serial: all histories of two calls over 22 documents x rules {6,14,2,4} (the second call is judged; the caller reuses one buffer)", "complete for depth 2 over the listed documents", func() {
+			hd := []string{`{"value":1,"unit":"B"}`, `{"value":2,"unit":"B"}`, `{"unit":"B","value":1}`, `{"value":1,"unit":"KiB"}`, `{"value":1,"unit":"B","x":1}`, `{"x":1,"value":1,"unit":"B"}`, `{"value":1}`, `{"unit":"B"}`,
+				`{"value":1,"value":1,"unit":"B"}`, `{}`, `12`, `13`, `"1KiB"`, `"2KiB"`, `null`, `0`, `{"value":0,"unit":"ZB"}`, `{"value":1,"unit":"ZB"}`, `1.5`, `"x"`, ``, `{"value":1,"unit":"B"`}
+			for _, rule := range []int{6, 14, 2, 4} {
+				setup(arg{Rule: rule, Max: 16})
+				r.Serial(func(w *mc.W) {
+					for _, x := range hd {
+						for _, y := range hd {
+							for via := 0; via < 3; via++ {
+								w.Point()
+								px := mc.Bin(x)
+								p.Do(w, arg{Doc: mc.Bin(y), Rule: rule, Max: 16, Prev: &px, Via: via})
+							}
+						}
+					}
+				})
+			}
+			reset()
+		})
 		r.Sample("document", arg{Doc: `{"x":1,"value":1,"unit":"B"}`, Rule: 6, Max: 2})
 		r.Sample("truncated", arg{Doc: `{"value":1,"unit":"B"`, Rule: 6, Max: 16})
 		r.Sample("trailing", arg{Doc: `5 x`, Rule: 2, Max: 16})
